@@ -185,7 +185,7 @@ class Sample(object):
         f = lambda t: sum(Ia*exp(-La*(t-To)) for Ia, La in data) - target
         df = lambda t: sum(La*Ia*(To-1)*exp(-La*(t-To)) for Ia, La in data)
         # Return target time, or 0 if target time is negative
-        if f(0) < target:
+        if f(0) <= 0:
             return 0
         # Need an initial guess near the answer otherwise find_root gets confused.
         # Small but significant activation with an extremely long half-life will
